@@ -4,7 +4,7 @@ spec).  Tie: `hal` programs on all four back ends, bit for bit against the Lean 
 classes at the magnitude limit of the FFT64 domain."""
 from . import halgen, halrun
 
-FAMILIES = ["dft_roundtrip", "dft_select", "dft_arith", "svp", "svp_dft", "vmp", "vmp_offset", "vmp_small", "cnv", "cnv_pair"]
+FAMILIES = ["dft_roundtrip", "dft_select", "dft_arith", "svp", "svp_dft", "vmp", "vmp_offset", "vmp_small", "cnv", "cnv_pair", "cnv_const"]
 
 
 def run(ctx):
